@@ -1,14 +1,21 @@
 #!/bin/bash
-# Development aid: re-run, for every archived seeded change, the check of the property it was written
-# against plus every check that reported it before; meta.json is updated (reeval_mutant.py).
+# Development aid: re-run, for archived seeded changes, the check of the property each was written
+# against (and, where that check did not report it before, the checks that did); meta.json is
+# updated (reeval_mutant.py).
+#   ./full_reeval.sh [file with seeded ids, one per line; default: all]   (ids in $SKIP_FILE are skipped)
 cd /verif
-for d in seeded/C*/; do
-  id=$(basename $d)
-  checks=$(python3 - "$d" <<'P'
+list=${1:-}
+if [ -n "$list" ]; then ids=$(cat "$list"); else ids=$(ls seeded | grep '^C'); fi
+for id in $ids; do
+  [ -n "${SKIP_FILE:-}" ] && grep -qx "$id" "$SKIP_FILE" && continue
+  checks=$(python3 - "seeded/$id" <<'P'
 import json,sys
 m=json.load(open(sys.argv[1]+"/meta.json"))
 own=m["breaks_property"]
-cs=[own]+[k for k in m.get("detected_by",{}) if k!=own]
+det=m.get("detected_by",{})
+cs=[own]
+if own not in det:
+    cs+=[k for k in det][:2]
 print(" ".join(cs))
 P
 )
